@@ -242,7 +242,8 @@ type Server struct {
 
 	nextProtos map[string]ServeHandler
 
-	concurrencyCh chan struct{}
+	concurrencyCh     chan struct{}
+	concurrencyChOnce sync.Once
 
 	idleConns map[net.Conn]*atomic.Int64
 	done      chan struct{}
@@ -501,7 +502,7 @@ func TimeoutWithCodeHandler(h RequestHandler, timeout time.Duration, msg string,
 	}
 
 	return func(ctx *RequestCtx) {
-		concurrencyCh := ctx.s.concurrencyCh
+		concurrencyCh := ctx.s.timeoutConcurrencyCh()
 		select {
 		case concurrencyCh <- struct{}{}:
 		default:
@@ -1987,10 +1988,8 @@ func (s *Server) Serve(ln net.Listener) error {
 	if s.done == nil {
 		s.done = make(chan struct{})
 	}
-	if s.concurrencyCh == nil {
-		s.concurrencyCh = make(chan struct{}, maxWorkersCount)
-	}
 	s.mu.Unlock()
+	s.timeoutConcurrencyCh()
 
 	wp := &workerPool{
 		WorkerFunc:            s.serveConn,
@@ -2297,6 +2296,18 @@ func (s *Server) GetOpenConnectionsCount() int32 {
 // This function is intended be used by monitoring systems.
 func (s *Server) GetRejectedConnectionsCount() uint32 {
 	return s.rejectedRequestsCount.Load()
+}
+
+// timeoutConcurrencyCh returns the channel that limits the number of handlers
+// started by TimeoutHandler. It is created on first use, so it also exists
+// when connections are served through ServeConn only.
+func (s *Server) timeoutConcurrencyCh() chan struct{} {
+	s.concurrencyChOnce.Do(func() {
+		if s.concurrencyCh == nil {
+			s.concurrencyCh = make(chan struct{}, s.getConcurrency())
+		}
+	})
+	return s.concurrencyCh
 }
 
 func (s *Server) getConcurrency() int {
